@@ -160,6 +160,8 @@ def m_enable(sp, s, t):
 
 def m_disable(sp, s, t):
     s.enabled = False
+    if s.tmo is not None:
+        s.notes.append("timer_cancelled")
     s.tmo = None
     return [s]
 
@@ -169,6 +171,8 @@ def m_complete(sp, s, t):
         s.notes.append("complete_suppressed")
         return [s]
     s.completed = True
+    if s.tmo is not None:
+        s.notes.append("timer_cancelled")
     s.tmo = None
     for e in sp.complete_events:
         s.out.append((t, e, None))
